@@ -102,6 +102,47 @@ def refClass (t : Ty) (inc : Bool) (i : Ini) : Bool :=
   tyWfFor t inc && topOK t i && noSwitch t inc i
 
 
+/-! ## designators that stay on first union members -/
+
+mutual
+  /-- following the positions `ps` from an object of type `t` never enters a member of a union
+  other than its first -/
+  def firstPath : Ty → List Nat → Bool
+    | .scalar _ _, ps => ps.isEmpty
+    | .array _ e, ps => match ps with | [] => true | _ :: ps' => firstPath e ps'
+    | .agg iu _ _ ms, ps => match ps with | [] => true | p :: ps' => (!iu || p == 0) && firstPathMs ms p ps'
+  def firstPathMs : Members → Nat → List Nat → Bool
+    | .nil, _, _ => false
+    | .cons _ t _ _ _ r, k, ps => match k with | 0 => firstPath t ps | k' + 1 => firstPathMs r k' ps
+end
+
+mutual
+  /-- the types of all sub-objects of an object of type `t` (and `t`) -/
+  def subTys : Ty → List Ty
+    | .scalar s k => [.scalar s k]
+    | .array n e => .array n e :: subTys e
+    | .agg iu tag size ms => .agg iu tag size ms :: subTysMs ms
+  def subTysMs : Members → List Ty
+    | .nil => []
+    | .cons _ t _ _ _ r => subTys t ++ subTysMs r
+end
+
+/-- wherever in the object the designator is used, it designates no union member but the first -/
+def desigOK (tys : List Ty) (d : Desig) : Bool :=
+  tys.all fun a =>
+    match CprocVerif.InitRef.resolve a d with
+    | .ok ps => firstPath a ps
+    | .error _ => true
+
+mutual
+  def desigsOK (tys : List Ty) : Ini → Bool
+    | .expr _ => true
+    | .list its => desigsOKs tys its
+  def desigsOKs (tys : List Ty) : Items → Bool
+    | .nil => true
+    | .cons ds i rest => ds.all (desigOK tys) && desigsOK tys i && desigsOKs tys rest
+end
+
 /-! ## the class of the end-to-end theorem `static_image_correct`
 
 Besides `refClass`: the layout handed to `parseinit` is a C layout (`layOK`: members inside their
@@ -109,9 +150,10 @@ struct/union, struct members in increasing bit order without overlap, bit-fields
 unit of their type's size, basic types with their LP64 sizes), string literals have the element
 width of their character type (`strsOK`), every stored value is a constant of the member's kind
 (`constVals`: no non-constant expression, no address in a narrower or bit-field member — the
-inputs on which `emitdata` reports "initializer is not a constant expression"), and designators
-are not used together with unions (`noUnion t || noDesig i`; with both, laminarity of the list
-depends on which union members are designated: differential only). -/
+inputs on which `emitdata` reports "initializer is not a constant expression"), and no
+designator designates a member of a union other than the first (`desigsOK (subTys t) i`; true
+without unions and without designators; otherwise laminarity of the list depends on which union
+members are designated: differential only). -/
 
 /-- size of the basic integer type of class `cls` (LP64) -/
 def csize (cls : Nat) : Nat :=
@@ -179,9 +221,25 @@ def constVals (t : Ty) (inc : Bool) (i : Ini) : Bool :=
   | .ok st => st.log.all evValOK
   | .error _ => true
 
+/-- the items are plain expressions, none a string for the whole array -/
+def flatItems (k : SK) : Items → Bool
+  | .nil => true
+  | .cons _ (.expr e) rest =>
+    (match k, e with
+      | .int _ _, .str _ _ _ => false
+      | _, _ => true) && flatItems k rest
+  | .cons _ (.list _) _ => false
+
+/-- an array of unknown size of scalars with a flat list of expressions `T a[] = { e, [k] = e, … }`
+(the part of the arrays of unknown size for which laminarity is proved) -/
+def incFlat (t : Ty) (i : Ini) : Bool :=
+  match t, i with
+  | .array 0 (.scalar _ k), .list its => flatItems k its
+  | _, _ => false
+
 /-- the class of `static_image_correct` -/
 def imgClass (t : Ty) (inc : Bool) (i : Ini) : Bool :=
-  refClass t inc i && !inc && layOK t && (noUnion t || noDesig i) && strsOK i && constVals t inc i
+  refClass t inc i && (!inc || incFlat t i) && layOK t && desigsOK (subTys t) i && strsOK i && constVals t inc i
 
 
 /-! ## the class of `auto_image_correct` (automatic objects) -/
